@@ -20,7 +20,8 @@ RULE = ('the real Bus and 2-4 real DBusClientConnections (real handshake, Hello,
         'applied to what the method returned, or a RemoteError whose name and message mirror what it raised; no result is '
         'crossed between concurrent calls. Non-trivial = >=2 calls in flight, or an introspected proxy, or a '
         'container-typed argument; distinct = distinct case JSON. In every third scenario the bus has a history: somebody connected '
-        'before the participants and left, a bystander connected after (all unique names must differ).')
+        'before the participants and left, a bystander connected after (all unique names must differ). A quarter of the exported '
+        'objects provide IDBusObject only through a registered adapter.')
 ASSUMPTIONS = ['links are FIFO byte streams; the bus offers ANONYMOUS only in this harness (keeps the cookie mechanism away '
                'from the real home directory)',
                'set-up traffic (handshake, Hello, RequestName, introspection) is delivered FIFO: only the calls are scheduled']
@@ -132,12 +133,20 @@ def _setup(case):
         exp = conns[ei]
         obj = Obj('/calc')
         obj.owner_index = ei        # every exporter exports its own instance under the same path
-        exp.exportObject(obj)
+        if _adapted(case):
+            from . import c10
+            exp.exportObject(c10._plain_for(O, obj))     # provides IDBusObject through a registered adapter only
+        else:
+            exp.exportObject(obj)
         r = []
         exp.requestBusName(SVC + str(ei)).addBoth(r.append)
         if not net.run_fifo() or r != [1]:
             raise N.RigFailure('exporter %d could not take its name: %r' % (ei, r))
     return net, conns, iface, state
+
+
+def _adapted(case):
+    return case.get('adapted', (case['nclients'] + 2 * len(case['calls'])) % 4 == 1)
 
 
 def _churn(case):
@@ -349,6 +358,8 @@ def classify(case):
         labels.append('concurrent_calls')
     if _churn(case):
         labels.append('bus_membership_churn')
+    if _adapted(case):
+        labels.append('exported_through_adapter')
     if any(c.get('timeout') for c in case['calls']):
         labels.append('call_with_deadline')
     for c in case['calls']:
